@@ -26,6 +26,10 @@ import types
 
 import compat  # noqa: F401
 import fakenet
+import logging
+
+logging.getLogger('wpull').addHandler(logging.NullHandler())
+logging.getLogger('wpull').propagate = False
 from runner import enc, Infra, unjson
 
 RULE = ('test: command lines generated option by option (each scope option on/off, parameters from pools with '
@@ -102,6 +106,13 @@ def make_record(url, rec):
     r.level = rec['level']
     r.inline_level = rec.get('inline_level')
     r.try_count = rec['try_count']
+    r.post_data = None
+    r.status_code = None
+    r.filename = None
+    r.priority = 0
+    if rec.get('link_type'):
+        from wpull.pipeline.item import LinkType
+        r.link_type = LinkType(rec['link_type'])
     return r
 
 
@@ -448,10 +459,10 @@ def pick_list(rng, pool, k=None):
     return ','.join(rng.choice(pool) for _ in range(k))
 
 
-def gen_argv(rng):
+def gen_argv(rng, p=None):
     """A command line: each scope option independently on/off."""
     argv = ['http://a.example/']
-    p = rng.choice([0.15, 0.3, 0.5])
+    p = p or rng.choice([0.15, 0.3, 0.5])
 
     def on(q=None):
         return rng.random() < (q if q is not None else p)
@@ -705,6 +716,499 @@ def boundary_cases(rng):
     return out
 
 
+# ------------------------------------------------------------------ part (b): the real processor sessions
+WEB_HOSTS = ['a.example', 'www.a.example', 'b.example', 'xa.example']
+WEB_IPS = {h: '10.0.2.%d' % (i + 1) for i, h in enumerate(WEB_HOSTS)}
+WEB_IPS_REV = {v: k for k, v in WEB_IPS.items()}
+
+
+class _HttpServer:
+    """scripted HTTP/1.1 server: site maps canonical URL -> [status, location-or-None, body]"""
+
+    def __init__(self, site, log):
+        self.site, self.log, self.buf = site, log, b''
+
+    async def serve(self, conn):
+        pass
+
+    def on_write(self, conn, data):
+        self.buf += data
+        while b'\r\n\r\n' in self.buf:
+            head, _, self.buf = self.buf.partition(b'\r\n\r\n')
+            lines = head.split(b'\r\n')
+            target = lines[0].split(b' ')[1].decode('latin-1')
+            # the host is the one the client connected to (a 307/308 replay keeps the first Host header: C16's business)
+            url = 'http://%s%s' % (WEB_IPS_REV[conn.address[0]], target)
+            self.log.append(url)
+            status, location, body = self.site.get(parse(url).url, [404, None, 'nf'])
+            body = body.encode('latin-1')
+            out = 'HTTP/1.1 %d X\r\nContent-Length: %d\r\n' % (status, len(body))
+            if location is not None:
+                out += 'Location: %s\r\n' % location
+            conn.send(out.encode('latin-1') + b'\r\n' + body)
+
+
+class _Table:
+    def __init__(self, hostnames=()):
+        self._h = list(hostnames)
+        self.calls = []
+
+    def get_hostnames(self):
+        return list(self._h)
+
+    def check_in(self, url, status, **kw):
+        self.calls.append(('check_in', url, status.value))
+
+    def add_many(self, *a, **k):
+        self.calls.append(('add_many',))
+
+    def update_one(self, *a, **k):
+        pass
+
+
+class _NoScrape:
+    def add_extra_urls(self, s):
+        pass
+
+    def scrape_document(self, s):
+        pass
+
+
+def _run_session(make, tmp_prefix='c02'):
+    """run `await make(tmp)` on a fresh loop inside a scratch directory"""
+    import shutil
+    import tempfile
+    tmp = tempfile.mkdtemp(prefix='wpull-verif-' + tmp_prefix)
+    cwd = os.getcwd()
+    os.chdir(tmp)
+    try:
+        return compat.run(make(tmp))
+    finally:
+        os.chdir(cwd)
+        shutil.rmtree(tmp, ignore_errors=True)
+
+
+async def _drive(proc, item):
+    task = asyncio.ensure_future(compat._ensure(proc.process(item)))
+    done = await fakenet.settle(task, [], extra=300)
+    if not done:
+        task.cancel()
+        return 'stalled'
+    try:
+        task.result()
+    except Exception as e:
+        return 'exc ' + type(e).__name__
+    return 'ok'
+
+
+def real_web_session(demux, record, site, strong, robots):
+    """The REAL WebProcessorSession (real FetchRule, WebClient, http Client, RedirectTracker,
+    RobotsTxtChecker) against a scripted server. -> (outcome, requests seen by the server)"""
+    from wpull.processor.rule import FetchRule, ResultRule
+    from wpull.processor.web import WebProcessor, WebProcessorFetchParams
+    from wpull.protocol.http.web import WebClient
+    from wpull.protocol.http.client import Client
+    from wpull.protocol.http.robots import RobotsTxtChecker
+    from wpull.network.pool import ConnectionPool
+    from wpull.pipeline.session import ItemSession
+    from wpull.writer import NullWriter
+    from wpull.stats import Statistics
+    from wpull.waiter import LinearWaiter
+    log = []
+
+    async def go(tmp):
+        net = fakenet.FakeNet()
+        for ip in WEB_IPS.values():
+            net.listen(ip, 80, lambda: _HttpServer(site, log))
+        with net:
+            pool = ConnectionPool(resolver=fakenet.FakeResolver(WEB_IPS))
+            web_client = WebClient(http_client=Client(connection_pool=pool))
+            checker = RobotsTxtChecker(web_client=WebClient(http_client=Client(connection_pool=pool))) if robots else None
+            factory = {'FileWriter': NullWriter(), 'FetchRule': FetchRule(url_filter=demux, robots_txt_checker=checker),
+                       'ResultRule': ResultRule(waiter=LinearWaiter(wait=0, max_wait=0), statistics=Statistics()),
+                       'ProcessingRule': _NoScrape(), 'WebClient': web_client, 'URLTable': _Table()}
+            item = ItemSession(types.SimpleNamespace(factory=factory, root_path=tmp), record)
+            proc = WebProcessor(web_client, WebProcessorFetchParams(strong_redirects=strong))
+            return await _drive(proc, item)
+    return _run_session(go), log
+
+
+FTP_IPS = {'a.example': '10.0.1.1', 'b.example': '10.0.1.2', 'www.a.example': '10.0.1.3'}
+FTP_TREE = {'/': [('pub', True), ('top.txt', False)], '/top.txt': 'top',
+            '/pub': [('file.txt', False), ('y.png', False), ('sub', True), ('blog', True)],
+            '/pub/file.txt': 'hello', '/pub/y.png': 'png', '/pub/sub': [('x.html', False)], '/pub/sub/x.html': 'x',
+            '/pub/blog': []}
+
+
+class _FtpCtl:
+    def __init__(self, world):
+        self.world, self.buf = world, b''
+
+    async def serve(self, conn):
+        conn.send(b'220 ready\r\n')
+
+    def on_write(self, conn, data):
+        self.buf += data
+        while b'\n' in self.buf:
+            line, _, self.buf = self.buf.partition(b'\n')
+            self.handle(conn, line.rstrip(b'\r'))
+
+    def handle(self, conn, line):
+        verb, _, arg = line.partition(b' ')
+        verb = verb.upper()
+        arg = arg.decode('latin-1')
+        w = self.world
+        if verb == b'USER':
+            conn.send(b'331 pw\r\n')
+        elif verb == b'PASS':
+            conn.send(b'230 ok\r\n')
+        elif verb == b'TYPE':
+            conn.send(b'200 ok\r\n')
+        elif verb == b'PASV':
+            conn.send(('227 Entering Passive Mode (%s,7,228)\r\n' % conn.address[0].replace('.', ',')).encode())
+        elif verb == b'REST':
+            conn.send(b'350 ok\r\n')
+        elif verb in (b'RETR', b'LIST'):
+            host = w['rev'][conn.address[0]]
+            w['log'].append('ftp://%s%s' % (host, arg))
+            node = FTP_TREE.get(arg.rstrip('/') or '/')
+            if verb == b'LIST' and isinstance(node, list):
+                body = ''.join('%srw-r--r-- 1 u g 3 Jan 01 2020 %s\r\n' % ('d' if d else '-', n) for n, d in node)
+            elif verb == b'RETR' and isinstance(node, str):
+                body = node
+            else:
+                conn.send(b'550 no such\r\n')
+                return
+            conn.send(b'150 here\r\n')
+            cands = [c for c in w['net'].conns if c.address[1] == 2020 and c.address[0] == conn.address[0] and not c.server_closed]
+            if cands:
+                cands[-1].send(body.encode())
+                cands[-1].close()
+            conn.send(b'226 done\r\n')
+        else:
+            conn.send(b'500 unknown\r\n')     # MLSD, SIZE: not implemented -> LIST is used
+
+
+class _FtpData:
+    async def serve(self, conn):
+        pass
+
+
+def real_ftp_session(demux, record, glob_on, preserve):
+    """The REAL FTPProcessorSession against a scripted FTP server. -> (outcome, request URLs the server saw)"""
+    from wpull.processor.rule import FetchRule, ResultRule
+    from wpull.processor.ftp import FTPProcessor, FTPProcessorFetchParams
+    from wpull.protocol.ftp.client import Client as FTPClient
+    from wpull.network.pool import ConnectionPool
+    from wpull.pipeline.session import ItemSession
+    from wpull.writer import NullWriter
+    from wpull.stats import Statistics
+    from wpull.waiter import LinearWaiter
+    world = {'log': [], 'rev': {v: k for k, v in FTP_IPS.items()}}
+
+    async def go(tmp):
+        net = fakenet.FakeNet()
+        world['net'] = net
+        for ip in FTP_IPS.values():
+            net.listen(ip, 21, lambda: _FtpCtl(world))
+            net.listen(ip, 2020, _FtpData)
+        with net:
+            pool = ConnectionPool(resolver=fakenet.FakeResolver(FTP_IPS))
+            client = FTPClient(connection_pool=pool)
+            factory = {'FileWriter': NullWriter(), 'FetchRule': FetchRule(url_filter=demux),
+                       'ResultRule': ResultRule(waiter=LinearWaiter(wait=0, max_wait=0), statistics=Statistics()),
+                       'URLTable': _Table()}
+            item = ItemSession(types.SimpleNamespace(factory=factory, root_path=tmp), record)
+            proc = FTPProcessor(client, FTPProcessorFetchParams(glob=glob_on, preserve_permissions=preserve))
+            return await _drive(proc, item)
+    return _run_session(go), world['log']
+
+
+def _justified(args, hostnames, url, rec, waived):
+    broken = reference_scope(args, hostnames, url, rec)
+    if waived:
+        broken = [b for b in broken if b != 'span-hosts']
+    return broken
+
+
+def run_web_cases(ctx, cases, log):
+    """cases: {argv, hostnames, url, record, site}"""
+    from wpull.url import urljoin
+    reqs, metas = [], []
+    for c in cases:
+        args = parse_args(c['argv'])
+        demux = real_build(args, c['hostnames'])
+        site = {parse(k).url: v for k, v in c['site'].items()}
+        log.clear()
+        outcome, seen = real_web_session(demux, make_record(c['url'], c['record']), site, args.strong_redirects, args.robots)
+        # what the server side answers, hop by hop (input of the model's adversary)
+        resps, cur = [], parse(c['url']).url
+        for _ in range(10):
+            status, location, _b = site.get(cur, [404, None, ''])
+            if status in (301, 302, 303, 307, 308) and location:
+                cur = parse(urljoin(cur, location)).url
+                resps.append('D:' + enc_info(parse(cur)))
+            else:
+                resps.append('F')
+                break
+        ui = parse(c['url'])
+        robots_url = '%s://%s/robots.txt' % (ui.scheme, ui.hostname_with_port)
+        rstatus, _l, rbody = site.get(parse(robots_url).url, [404, None, ''])
+        rob = 'E' if 500 <= rstatus <= 599 else ('FF' if rstatus == 200 and 'Disallow: /\n' in rbody else 'FT')
+        reqs.append('filter web %s %s %s %s %s %s %s %s' % (
+            enc_filters(demux.url_filters), enc_bool(args.strong_redirects), enc_bool(args.robots),
+            enc_rec(c['record']), enc_info(ui), rob, ';'.join(resps), log.tables()))
+        metas.append((c, args, outcome, seen, robots_url))
+    reps = ctx.model.ask(reqs)
+    for (c, args, outcome, seen, robots_url), rep in zip(metas, reps):
+        want = []
+        for ev in ([] if rep == '-' else rep.split(';')):
+            if ev.startswith('B:'):
+                want.append(parse(robots_url).url)
+            elif ev.startswith('R:'):
+                want.append(''.join(chr(int(x, 16)) for x in ev.split(':')[1].split('.')))
+        got = [parse(u).url for u in seen]
+        case = dict(c, stream='web')
+        if rep in ('miss', 'bad-arg', 'bad-op') or want != got or not outcome.startswith('ok'):
+            ctx.disagree('web', case, {'events': rep, 'requests': want}, {'outcome': outcome, 'requests': got})
+        ctx.case(('web', json.dumps(c, sort_keys=True)), nontrivial=len(got) > 0,
+                 tags=['web:requests=%d' % min(len(got), 4), 'web:' + outcome.split(' ')[0]])
+        # ---- the property on the request log of the server
+        first = parse(c['url']).url
+        seen_item = False
+        for u in got:
+            if u == parse(robots_url).url and not seen_item:
+                if _justified(args, c['hostnames'], c['url'], c['record'], False):
+                    ctx.fail('out-of-scope-request', 'web-session', case,
+                             'robots.txt of %s fetched although the item URL is out of scope' % c['url'])
+                continue
+            waived = seen_item and args.strong_redirects      # a redirect hop
+            seen_item = True
+            broken = _justified(args, c['hostnames'], u, c['record'], waived)
+            if broken:
+                ctx.fail('out-of-scope-request', 'web-session', case,
+                         'the server received a request for %s (hop of %s) which breaks %s' % (u, first, broken))
+    if cases:
+        ctx.sample(dict(cases[0], stream='web'))
+
+
+def ftp_shape(url, rec, glob_on, preserve):
+    """How FTPProcessorSession.process gets from the item URL to its requests, given the server's tree
+    (derived URLs are built by wpull's own helper functions; URL building is not modelled)."""
+    import posixpath
+    import urllib.parse
+    from wpull.processor.ftp import to_dir_path_url, append_slash_to_path_url, GLOB_CHARS
+    ui = parse(url)
+    filename = ui.split_path()[1]
+    dir_info = parse(to_dir_path_url(ui))
+    if glob_on and frozenset(filename) & GLOB_CHARS:
+        return 'glob!' + enc_info(dir_info), 'None'
+    if rec.get('link_type') or ui.path.endswith('/'):
+        is_file = rec.get('link_type') == 'file'
+        retr_ok = isinstance(FTP_TREE.get(urllib.parse.unquote(ui.path).rstrip('/') or '/'), str)
+        perm = enc_info(dir_info) if (preserve and is_file and retr_ok) else 'None'
+        return 'known', perm
+    listing = FTP_TREE.get(urllib.parse.unquote(dir_info.path).rstrip('/') or '/')
+    slashed = None
+    if isinstance(listing, list):
+        name = posixpath.basename(urllib.parse.unquote(ui.path))
+        for n, d in listing:
+            if n == name:
+                slashed = parse(append_slash_to_path_url(ui)) if d else None
+                break
+    return 'probe!%s!%s' % (enc_info(dir_info), enc_info(slashed)), 'None'
+
+
+def run_ftp_cases(ctx, cases, log):
+    """cases: {argv, hostnames, url, record, glob, preserve}"""
+    reqs, metas = [], []
+    for c in cases:
+        args = parse_args(c['argv'])
+        demux = real_build(args, c['hostnames'])
+        log.clear()
+        outcome, seen = real_ftp_session(demux, make_record(c['url'], c['record']), c['glob'], c['preserve'])
+        shape, perm = ftp_shape(c['url'], c['record'], c['glob'], c['preserve'])
+        reqs.append('filter ftp %s %s %s %s %s %s' % (enc_filters(demux.url_filters), enc_rec(c['record']),
+                                                     enc_info(parse(c['url'])), shape, perm, log.tables()))
+        metas.append((c, args, outcome, seen, shape))
+    reps = ctx.model.ask(reqs)
+    for (c, args, outcome, seen, shape), rep in zip(metas, reps):
+        want = [''.join(chr(int(x, 16)) for x in ev.split(':')[1].split('.'))
+                for ev in ([] if rep == '-' else rep.split(';')) if ev.startswith('R:')]
+        case = dict(c, stream='ftp')
+        if rep in ('miss', 'bad-arg', 'bad-op') or want != seen or not outcome.startswith('ok'):
+            ctx.disagree('ftp', case, {'events': rep, 'requests': want}, {'outcome': outcome, 'requests': seen})
+        ctx.case(('ftp', json.dumps(c, sort_keys=True)), nontrivial=len(seen) > 0,
+                 tags=['ftp:requests=%d' % len(seen), 'ftp:' + outcome.split(' ')[0], 'ftp:shape=' + shape.split('!')[0]])
+        for u in seen:
+            broken = _justified(args, c['hostnames'], u, c['record'], False)
+            if broken:
+                ctx.fail('out-of-scope-request', 'ftp-session', case,
+                         'the FTP server received a request for %s on behalf of %s; that URL breaks %s' % (u, c['url'], broken))
+    if cases:
+        ctx.sample(dict(cases[0], stream='ftp'))
+
+
+
+
+def gen_http_url(rng):
+    segs = [rng.choice(SEGS[:8]) for _ in range(rng.choice([0, 1, 1, 2]))]
+    f = rng.choice(FILES[:14])
+    path = '/' + '/'.join(segs + [f]) if (segs or f) else '/'
+    return 'http://%s%s' % (rng.choice(WEB_HOSTS), path.replace(' ', '%20'))
+
+
+def session_argv(rng, web):
+    argv = [a for a in gen_argv(rng, rng.choice([0.04, 0.08, 0.15]))]
+    if '--https-only' in argv and rng.random() < 0.8:
+        argv.remove('--https-only')
+    if web:
+        if rng.random() < 0.8:
+            argv.append('--no-robots')
+        if rng.random() < 0.3:
+            argv.append('--no-strong-redirects')
+    return argv
+
+
+def gen_web_case(rng):
+    argv = session_argv(rng, True)
+    args = parse_args(argv)
+    url = 'http://a.example' + gen_http_url(rng)[len('http://'):].partition('/')[1] + gen_http_url(rng).split('/', 3)[3]
+    site, cur = {}, url
+    for _ in range(rng.choice([0, 1, 1, 2, 3, 4])):
+        nxt = gen_http_url(rng)
+        if nxt in site or nxt == url:
+            break
+        loc = nxt
+        if parse(nxt).hostname == parse(cur).hostname and rng.random() < 0.5:
+            loc = '/' + nxt.split('/', 3)[3]
+        site[cur] = [rng.choice([301, 302, 303, 307, 308]), loc, '']
+        cur = nxt
+    site[cur] = [rng.choice([200, 200, 404, 500]), None, 'body']
+    r = rng.random()
+    if r < 0.5:
+        site['http://a.example/robots.txt'] = [200, None, 'User-agent: *\nDisallow: /\n' if rng.random() < 0.4 else 'User-agent: *\nDisallow: /none\n']
+    elif r < 0.6:
+        site['http://a.example/robots.txt'] = [500, None, 'oops']
+    rec = gen_record(rng, args, url)
+    if rng.random() < 0.5:
+        rec.update(level=0, inline_level=None, try_count=0, parent_url=None)
+    return {'argv': argv, 'hostnames': rng.choice([['a.example'], ['a.example'], ['a.example', 'b.example']]),
+            'url': url, 'record': rec, 'site': site}
+
+
+FTP_PATHS = ['/pub/file.txt', '/pub/y.png', '/pub/sub', '/pub/sub/', '/pub/', '/pub', '/pub/sub/x.html', '/top.txt', '/',
+             '/pub/*.txt', '/pub/su?', '/pub/nope', '/pub/blog', '/pub/blog/', '/pub/*']
+
+
+def gen_ftp_case(rng):
+    argv = session_argv(rng, False)
+    args = parse_args(argv)
+    url = 'ftp://%s%s' % (rng.choice(['a.example', 'a.example', 'b.example', 'www.a.example']), rng.choice(FTP_PATHS))
+    rec = gen_record(rng, args, url)
+    if rng.random() < 0.5:
+        rec.update(level=0, inline_level=None, try_count=0, parent_url=None)
+    r = rng.random()
+    rec['link_type'] = None if r < 0.6 else ('file' if r < 0.8 else 'directory')
+    return {'argv': argv, 'hostnames': rng.choice([['a.example'], ['a.example', 'b.example']]), 'url': url, 'record': rec,
+            'glob': rng.random() < 0.8, 'preserve': rng.random() < 0.3}
+
+
+def fixed_session_cases():
+    base = {'parent_url': None, 'root_url': None, 'level': 0, 'inline_level': None, 'try_count': 0}
+    web = []
+    site = {'http://a.example/x': [302, 'http://b.example/y', ''], 'http://b.example/y': [301, '/z.png', ''],
+            'http://b.example/z.png': [200, None, 'hello'], 'http://a.example/robots.txt': [200, None, 'User-agent: *\nDisallow: /q\n']}
+    for extra in ([], ['--no-strong-redirects'], ['-R', 'png'], ['--reject-regex', 'b\\.example/y'], ['--exclude-domains', 'b.example'],
+                  ['--no-robots'], ['-t', '1'], ['-H']):
+        web.append({'argv': ['http://a.example/x'] + extra, 'hostnames': ['a.example'], 'url': 'http://a.example/x',
+                    'record': dict(base), 'site': site})
+    ftp = []
+    for extra, url in (([], 'ftp://a.example/pub/file.txt'), (['--accept-regex', 'file\\.txt$'], 'ftp://a.example/pub/file.txt'),
+                       (['--reject-regex', '/$'], 'ftp://a.example/pub/sub'), (['--reject-regex', '/$'], 'ftp://a.example/pub/*.txt'),
+                       (['-X', '/pub'], 'ftp://a.example/pub/file.txt'), (['-I', '/pub/sub'], 'ftp://a.example/pub/sub'),
+                       (['--no-parent'], 'ftp://a.example/pub/sub'), ([], 'ftp://a.example/pub/*.txt')):
+        for preserve in (False, True):
+            ftp.append({'argv': ['ftp://a.example/'] + extra, 'hostnames': ['a.example'], 'url': url, 'record': dict(base, link_type=None),
+                        'glob': True, 'preserve': preserve})
+    return web, ftp
+
+
+# ------------------------------------------------------------------ source scan: every request call is dominated by a consultation
+FETCH_ATTRS = {'start', 'start_listing', 'fetch'}
+CONSULT_ATTRS = {'consult_filters', 'check_ftp_request', 'check_generic_request', 'check_subsequent_web_request',
+                 'check_initial_web_request'}
+# local helpers that stand for a consultation, and what they must (transitively) call
+CONSULT_HELPERS = {'_should_fetch_reason': 'check_subsequent_web_request',
+                   '_should_fetch_reason_with_robots': 'check_initial_web_request',
+                   '_is_request_accepted': 'consult_filters'}
+
+
+def _calls(node):
+    for n in ast.walk(node):
+        if isinstance(n, ast.Call) and isinstance(n.func, ast.Attribute):
+            yield n
+
+
+def _guarded_before(func, line, consults):
+    """is there, in `func` before `line`, a consultation whose negative verdict leaves (return/break/continue/raise)?"""
+    cl = [c.lineno for c in _calls(func) if c.func.attr in consults and c.lineno < line]
+    if not cl:
+        return False
+    first = min(cl)
+    for n in ast.walk(func):
+        if isinstance(n, ast.If) and first <= n.lineno < line and isinstance(n.test, ast.UnaryOp) and isinstance(n.test.op, ast.Not):
+            if isinstance(n.body[-1], (ast.Return, ast.Break, ast.Continue, ast.Raise)) and n.body[-1].end_lineno < line:
+                return True
+    return False
+
+
+def scan_source(path):
+    """-> (list of (function, line, attr, how-guarded), list of unguarded (function, line, attr))"""
+    with open(path, encoding='utf-8') as f:
+        tree = ast.parse(f.read())
+    ok, bad = [], []
+    for cls in [n for n in tree.body if isinstance(n, ast.ClassDef)]:
+        funcs = {n.name: n for n in cls.body if isinstance(n, ast.FunctionDef)}
+        consults = set(CONSULT_ATTRS)
+        for h, must in CONSULT_HELPERS.items():
+            if h in funcs and any(c.func.attr == must for c in _calls(funcs[h])):
+                consults.add(h)
+
+        def guarded(fname, line, depth=0):
+            if _guarded_before(funcs[fname], line, consults):
+                return 'in ' + fname
+            if depth >= 3:
+                return None
+            sites = [(g, c.lineno) for g, fn in funcs.items() for c in _calls(fn)
+                     if c.func.attr == fname and isinstance(c.func.value, ast.Name) and c.func.value.id == 'self']
+            if not sites:
+                return None
+            hows = [guarded(g, l, depth + 1) for g, l in sites]
+            return 'callers: ' + '; '.join(hows) if all(hows) else None
+        for fname, fn in funcs.items():
+            for c in _calls(fn):
+                if c.func.attr in FETCH_ATTRS:
+                    how = guarded(fname, c.lineno)
+                    (ok if how else bad).append((cls.name + '.' + fname, c.lineno, c.func.attr, how))
+    return ok, bad
+
+
+def ast_scan(ctx):
+    found = {}
+    for rel, minimum in (('wpull/processor/web.py', 1), ('wpull/processor/ftp.py', 3)):
+        ok, bad = scan_source(os.path.join(ctx.repo, rel))
+        found[rel] = ['%s:%d .%s() %s' % o for o in ok]
+        ctx.case(('astscan', rel, tuple(found[rel])), tags=['astscan:calls=%d' % (len(ok) + len(bad))])
+        for fn, line, attr, _ in bad:
+            ctx.fail('unguarded-request', rel.split('/')[-1] + ':' + fn.split('.')[-1], {'stream': 'astscan', 'file': rel},
+                     '%s line %d: .%s() is not dominated by a filter consultation with an exit on a negative verdict' % (fn, line, attr))
+        if len(ok) + len(bad) < minimum:
+            ctx.fail('unguarded-request', rel.split('/')[-1] + ':scan', {'stream': 'astscan', 'file': rel},
+                     'the scan found %d request calls, expected at least %d: the scan no longer sees the request sites' % (len(ok) + len(bad), minimum))
+    ctx.note('astscan', found)
+
+
 # ------------------------------------------------------------------ entry points
 def load_corpus(ctx):
     out = []
@@ -725,14 +1229,27 @@ def replay(ctx, case, kind=None, where=None):
             stream_similar(ctx, [(case['a'], case['b'])])
         elif s == 'subdir':
             stream_subdir(ctx, [(case['base'], case['test'], case['trailing_slash'], case['wildcards'])], log)
+        elif s == 'web':
+            run_web_cases(ctx, [case], log)
+        elif s == 'ftp':
+            run_ftp_cases(ctx, [case], log)
+        elif s == 'astscan':
+            ast_scan(ctx)
+        elif s == 'assumption':
+            run_assumptions(ctx)
         else:
             raise Infra('unknown replay stream %r' % s)
 
 
-def run(ctx):
+def run_assumptions(ctx):
     from wpull.pipeline.session import ItemSession
     if ItemSession.is_virtual.fget(object()) is not False:
         ctx.fail('assumption', 'is_virtual', {'stream': 'assumption'}, 'ItemSession.is_virtual is no longer False')
+
+
+def run(ctx):
+    run_assumptions(ctx)
+    ast_scan(ctx)
     for case in load_corpus(ctx):
         replay(ctx, case['case'] if 'case' in case else case)
     rng = ctx.rng
@@ -757,6 +1274,12 @@ def run(ctx):
         n = ctx.scale(3000, 60000)
         for start in range(0, n, chunk):
             run_rawtests(ctx, [gen_raw_case(rng) for _ in range(min(chunk, n - start))], log)
+        # part (b): the real processor sessions
+        web, ftp = fixed_session_cases()
+        srng = ctx.subrng('sessions')
+        run_web_cases(ctx, web + [gen_web_case(srng) for _ in range(ctx.scale(400, 6000))], log)
+        run_ftp_cases(ctx, ftp + [gen_ftp_case(srng) for _ in range(ctx.scale(300, 4000))], log)
+    ctx.note('todo', 'part (b) end-to-end: replay the request logs of whole crawls (C01 harness, second forbidden host) against the model')
 
 
 def search(ctx):
@@ -766,3 +1289,5 @@ def search(ctx):
         for _ in range(5):
             run_tests(ctx, [gen_case(rng) for _ in range(ctx.scale(400, 2000))], log)
         run_rawtests(ctx, [gen_raw_case(rng) for _ in range(ctx.scale(300, 1000))], log)
+        run_web_cases(ctx, [gen_web_case(rng) for _ in range(ctx.scale(100, 300))], log)
+        run_ftp_cases(ctx, [gen_ftp_case(rng) for _ in range(ctx.scale(100, 300))], log)
